@@ -173,6 +173,28 @@ func C11(run *mon.Run) {
 			if !c11Expect(a.c, q, digest, libSig) {
 				run.Violate("C11:sign-output-rejected-by-reference:"+a.n, fmt.Sprintf("signature returned by Sign does not satisfy the ECDSA equation (%s)", ctx), rep(libSig, "sign"))
 			}
+			// arguments sharing memory with other caller data
+			{
+				ms := withSpare(msg)
+				s2, e2 := sk.Sign(ms, h)
+				run.Eval(1)
+				if e2 != nil || !spareIntact(ms, msg) || !c11Expect(a.c, q, digest, s2) {
+					run.Violate("C11:sign-touches-caller-memory", fmt.Sprintf("Sign of a message slice with spare capacity: err %v, caller memory intact=%v (%s)", e2, spareIntact(ms, msg), ctx), rep(s2, "spare"))
+				}
+				for order := 0; order < 2; order++ {
+					var ma, sa []byte
+					if order == 0 {
+						ma, sa = adjacent(msg, libSig)
+					} else {
+						sa, ma = adjacent(libSig, msg)
+					}
+					ok, e3 := pk.Verify(sa, ma, h)
+					run.Eval(1)
+					if e3 != nil || !ok || !bytes.Equal(ma, msg) || !bytes.Equal(sa, libSig) {
+						run.Violate("C11:verify-adjacent-buffers", fmt.Sprintf("Verify with message and signature adjacent in one buffer (order %d): (%v,%v) (%s)", order, ok, e3, ctx), rep(libSig, "adjacent"))
+					}
+				}
+			}
 			bases := [][]byte{libSig}
 			for tries := 0; tries < 200; tries++ {
 				k := new(big.Int).Mod(new(big.Int).SetBytes(mon.RandBytes(r, 40)), a.c.N)
@@ -292,11 +314,75 @@ func C11(run *mon.Run) {
 		}(bi)
 	}
 	wg.Wait()
+	c11SignVolume(run)
 	c11HasherErrors(run, run.Rand("errors"))
 	run.Require(run.Counter("reference-true") >= 100, "fewer than 100 reference-true verifications")
 	for _, k := range []string{"base", "twin", "r-boundary", "s-boundary", "swap", "other-message", "other-key", "other-curve", "bitflip", "length", "small-s", "small-s-plus-n"} {
 		run.Require(run.Counter("mut."+k) > 0, "mutation class not exercised: "+k)
 	}
+}
+
+// c11SignVolume: "every signature returned by Sign satisfies the equation" over a volume large enough
+// that signatures with an unusually short r or s (one or more leading zero bytes; two or more about once
+// in 2^15) occur many times. Every signature must verify with the library; those with a leading zero byte
+// are also judged by the reference.
+func c11SignVolume(run *mon.Run) {
+	per := run.Pick(1<<14, 1<<18) // per worker: 16 workers x 2 curves
+	var wg sync.WaitGroup
+	for w := 0; w < 16; w++ {
+		wg.Add(1)
+		go func(w int) {
+			defer wg.Done()
+			r := run.Rand(fmt.Sprintf("sign-volume-%d", w))
+			for _, a := range ecAlgs {
+				d := new(big.Int).Mod(new(big.Int).SetBytes(mon.RandBytes(r, 40)), a.c.N)
+				if d.Sign() == 0 {
+					d = big.NewInt(9)
+				}
+				sk, err := crypto.DecodePrivateKey(a.alg, d.FillBytes(make([]byte, 32)))
+				if err != nil {
+					return
+				}
+				pk := sk.PublicKey()
+				q := a.c.Pub(d)
+				h := hash.NewSHA2_256()
+				msg := make([]byte, 16)
+				for i := 0; i < per; i++ {
+					msg[0], msg[1], msg[2], msg[3], msg[4] = byte(i), byte(i>>8), byte(i>>16), byte(i>>24), byte(w)
+					sig, err := sk.Sign(msg, h)
+					if err != nil || len(sig) != 64 {
+						run.Violate("C11:sign-error", fmt.Sprintf("Sign error %v len %d in the volume run", err, len(sig)), nil)
+						return
+					}
+					ok, err := pk.Verify(sig, msg, h)
+					short := 0
+					for _, half := range [][]byte{sig[:32], sig[32:]} {
+						z := 0
+						for z < 32 && half[z] == 0 {
+							z++
+						}
+						short = max(short, z)
+					}
+					if short > 0 {
+						run.Count(fmt.Sprintf("sign-volume.leading-zero-bytes.%d", min(short, 3)), 1)
+						if !c11Expect(a.c, q, h.ComputeHash(msg), sig) {
+							ok = false
+						}
+					}
+					if err != nil || !ok {
+						run.Violate("C11:sign-output-invalid:"+a.n, fmt.Sprintf("a signature returned by Sign (leading zero bytes in r or s: %d) does not verify: (%v,%v)", short, ok, err),
+							map[string]any{"curve": a.n, "d": d.Text(16), "msg": mon.Hex(msg), "sig": mon.Hex(sig)})
+						return
+					}
+				}
+				run.Eval(2 * per)
+				run.Count("sign-volume.signatures", per)
+			}
+		}(w)
+	}
+	wg.Wait()
+	run.Shape("sign-volume")
+	run.Require(run.Counter("sign-volume.leading-zero-bytes.2")+run.Counter("sign-volume.leading-zero-bytes.3") >= 1, "no signature with two leading zero bytes in r or s was produced by the volume run")
 }
 
 func inRangeN(c *ref.ECCurve, b []byte) bool {
